@@ -19,7 +19,7 @@ ASSUMPTIONS = [
 ]
 REQUIRED = {
     "quick": {"steps": 3000, "future_queries_refused": 30000, "history_slots_compared": 200000,
-              "class/run_crossing_2_chunk_boundaries": 4, "class/run_with_index_market": 8,
+              "class/run_crossing_2_chunk_boundaries": 4, "class/run_with_index_market": 5,
               "class/run_with_shock": 8, "class/run_with_parameter_change": 4, "hook_time_checks": 200},
     "thorough": {"steps": 60000, "future_queries_refused": 600000, "history_slots_compared": 5000000,
                  "class/run_crossing_2_chunk_boundaries": 80, "class/run_with_index_market": 150,
